@@ -44,6 +44,10 @@ CHECKS = {
   "held on every sequence of directive kinds up to the length bound with every placement of one parenthesis pair / lone parenthesis (exhaustive under the bound) and on random longer sequences: the real directive tree and rejection class equal those of a reference walk written from the statement; also after MACRO/PASTE expansion",
   "trusts the repository's public admissibility table (tested cell by cell by its own suite) and the verif-tagged tree accessors",
   "runtime monitoring: execution vs a small executable reference model over hooked state (directive trees), bounded-exhaustive enumeration"),
+ "C16": ("exploration",
+  "held on the observed schedules: race-detector-instrumented workers run parallel parses, concurrent reads of one catalog, first-use races in fresh processes, and recorded collection histories checked for linearizability (porcupine) plus quiescent-state checks; interleavings are sampled, the evidence counts overlapping histories",
+  "trusts the Go race detector and porcupine v1.3.0; the sequential ordered-map model is 40 lines",
+  "runtime monitoring: Go race detector over stress workloads + offline linearizability checking of recorded call/return histories against a sequential model"),
 }
 
 def main():
@@ -60,6 +64,10 @@ def main():
      "engines": [
       {"name": "jsmon", "path": "harness/cmd/jsmon", "serves_properties": sorted(CHECKS),
        "kind_free_text": "driver + crash-attributing worker processes + oracles over observations of the real library (runtime monitoring)"},
+      {"name": "jsmon-race", "path": "harness/cmd/jsmon", "serves_properties": ["C16"],
+       "kind_free_text": "the same binary built with -race (Go race detector, checkptr)"},
+      {"name": "porcupine", "path": "harness/internal/checks/c16.go", "serves_properties": ["C16"],
+       "kind_free_text": "linearizability checker (porcupine v1.3.0) over recorded collection histories"},
      ],
      "checks": [],
      "notes": "bin/check <ID> <tier> rebuilds the monitor from /repo's current working tree on every invocation. Exit 0 held / 1 violation (VIOLATION line) / 2 inconclusive. Known findings: known_findings.json.",
